@@ -79,7 +79,24 @@ def gen_string(rng, cls):
         return rng.choice(["", w]) + chr(rng.choice([0xD800, 0xDBFF, 0xDC00, 0xDFFF, 0xD83D])) + rng.choice(["", w])
     if cls == "long":
         return (w + " ") * rng.randint(200, 600)
+    if cls == "split-pair":
+        # a high surrogate immediately followed by a low one, as two code points of a Python str (text cut and glued again
+        # around a UTF-16 pair): NOT the astral character they would spell in UTF-16
+        return rng.choice(["", w]) + rng.choice(["\ud83d\ude00", "\ud800\udc00", "\udbbf\udfff", "\ud83d\ude00\ude00", "\ud83d\ud83d\ude00"]) + rng.choice(["", w])
+    if cls == "format-quote":
+        return rng.choice(FORMAT_QUOTES) + rng.choice(["", "", w, '{"report_version": 1.1}'])
     raise ValueError(cls)
+
+
+# text quoting the report file formats themselves (a test that logs the beginning of a report.js, an XML snippet, …): legitimate
+# content that a loader working on the raw text instead of the parsed structure may mistake for the file's own syntax.  Not in
+# STRING_CLASSES (the existing streams keep their distributions); planted explicitly by the streams that want it.
+FORMAT_QUOTES = [
+    "var reporting_data = ", "report.js starts with: var reporting_data = ", "var reporting_data = var reporting_data = ",
+    " var reporting_data = {", "x\nvar reporting_data = ", "var reporting_data =", "VAR REPORTING_DATA = ",
+    '{"report_version": 2.0}', '"report_version"', "<?xml version='1.0' encoding='utf-8'?>", "<lemoncheesecake-report",
+    "</lemoncheesecake-report>", "</log></step></test>", "report_version=\"9.9\"", "\\u0000", "\\ud800", "\\\"", "&#0;", "&lt;",
+]
 
 
 IDENTS = ["alpha", "beta", "gamma", "delta", "omega", "foo", "bar", "baz", "x", "value", "compat", "test_a", "suite_b", "a", "b"]
